@@ -395,3 +395,37 @@ unit("permutation.compute_linearization_commitment", PM + "verifierkey.rs",
       ("z_challenge", sym("z_challenge")), ("u_challenge", sym("u_challenge")), ("abg", T4(["alpha", "beta", "gamma"])),
       ("l1_eval", sym("l1_eval")), ("z_comm", sym("z_comm"))],
      c_perm_vk, outputs=pushes(1, 2), keys=["permutation.compute_linearization_commitment"], consts=CONSTS)
+
+
+# ------------------------------------------------------------------ replay recipes (how to rebuild a counterexample on the real code)
+WP = "crate::proof_system::widget::"
+RECIPES = {
+    "range.delta": dict(kind="scalar_fn", path=WP + "range::proverkey::delta", args=["f"]),
+    "logic.delta": dict(kind="scalar_fn", path=WP + "logic::proverkey::delta", args=["f"]),
+    "logic.delta_xor_and": dict(kind="scalar_fn", path=WP + "logic::proverkey::delta_xor_and", args=["&a", "&b", "&w", "&c", "&q_c"]),
+    "fixed_base.extract_bit": dict(kind="scalar_fn", path=WP + "ecc::scalar_mul::fixed_base::proverkey::extract_bit", args=["&acc", "&acc_w"]),
+    "fixed_base.check_bit_consistency": dict(kind="scalar_fn", path=WP + "ecc::scalar_mul::fixed_base::proverkey::check_bit_consistency", args=["bit"]),
+    "arithmetic.compute_linearization_commitment": dict(kind="vk_widget", struct=WP + "arithmetic::VerifierKey",
+        fields=["q_m", "q_l", "q_r", "q_o", "q_f", "q_c", "q_arith"], call_args=["scalars", "points", "evaluations"]),
+    "range.compute_linearization_commitment": dict(kind="vk_widget", struct=WP + "range::VerifierKey", fields=["q_range"],
+        call_args=["sep", "scalars", "points", "evaluations"]),
+    "logic.compute_linearization_commitment": dict(kind="vk_widget", struct=WP + "logic::VerifierKey", fields=["q_c", "q_logic"],
+        call_args=["sep", "scalars", "points", "evaluations"]),
+    "fixed_base.compute_linearization_commitment": dict(kind="vk_widget", struct=WP + "ecc::scalar_mul::fixed_base::VerifierKey",
+        fields=["q_l", "q_r", "q_fixed_group_add"], call_args=["sep", "scalars", "points", "evaluations"]),
+    "curve_addition.compute_linearization_commitment": dict(kind="vk_widget", struct=WP + "ecc::curve_addition::VerifierKey",
+        fields=["q_variable_group_add"], call_args=["sep", "scalars", "points", "evaluations"]),
+    "arithmetic.compute_quotient_i": dict(kind="pk_quotient", struct=WP + "arithmetic::ProverKey",
+        fields=["q_m", "q_l", "q_r", "q_o", "q_f", "q_c", "q_arith"], call_args=["a_i", "b_i", "c_i", "d_i"]),
+    "range.compute_quotient_i": dict(kind="pk_quotient", struct=WP + "range::ProverKey", fields=["q_range"],
+        call_args=["sep", "a_i", "b_i", "c_i", "d_i", "d_i_w"]),
+    "logic.compute_quotient_i": dict(kind="pk_quotient", struct=WP + "logic::ProverKey", fields=["q_c", "q_logic"],
+        call_args=["sep", "a_i", "a_i_w", "b_i", "b_i_w", "c_i", "d_i", "d_i_w"]),
+    "fixed_base.compute_quotient_i": dict(kind="pk_quotient", struct=WP + "ecc::scalar_mul::fixed_base::ProverKey",
+        fields=["q_l", "q_r", "q_c", "q_fixed_group_add"], call_args=["sep", "a_i", "a_i_w", "b_i", "b_i_w", "c_i", "d_i", "d_i_w"]),
+    "curve_addition.compute_quotient_i": dict(kind="pk_quotient", struct=WP + "ecc::curve_addition::ProverKey",
+        fields=["q_variable_group_add"], call_args=["sep", "a_i", "a_i_w", "b_i", "b_i_w", "c_i", "d_i", "d_i_w"]),
+}
+for _u in UNITS:
+    if _u.name in RECIPES:
+        _u.replay = RECIPES[_u.name]
